@@ -34,6 +34,10 @@ def generate(rng, i):
     sc = gen_acct.generate(rng, PROFILE)
     if i % 4 == 1:
         sc["neighbour"] = i      # an unrelated account in the same process, moved in between this one's operations
+    if i % 2 == 0:
+        for spec in sc["contracts"]:
+            if spec["kind"] in ("spot", "margined"):
+                spec["per_instance"] = True     # one user class for all instruments, requirements per instance
     return sc
 
 
